@@ -133,6 +133,33 @@ def run_case(case):
         check(res, f, src, columns, desc, run_ends)
         if len(res.violations) > 4:
             break
+    if len(cols) >= 2 and not res.violations:
+        # the result is produced lazily: two of them alive at once and consumed in turns (zip(...), a loop over lines whose
+        # body wraps the same text again) must each yield what they yield when consumed alone
+        res.label("two_results_consumed_alternately")
+        c1, c2 = cols[0], cols[1]
+
+        def alone(c):
+            return [cells(l) for l in f.width_aware_splitlines(c)]
+
+        def alternately():
+            its = [iter(f.width_aware_splitlines(c1)), iter(f.width_aware_splitlines(c2))]
+            got, live = [[], []], [True, True]
+            while any(live):
+                for k in (0, 1):
+                    if live[k]:
+                        try:
+                            got[k].append(cells(next(its[k])))
+                        except StopIteration:
+                            live[k] = False
+            return got
+
+        want, e1 = call(lambda: [alone(c1), alone(c2)])
+        got, e2 = call(alternately)
+        res.evals += 1
+        if e1 is None and (e2 is not None or got != want):
+            res.viol("results_consumed_alternately_differ", columns=[c1, c2], desc=desc, error=exc_str(e2) if e2 else "",
+                     got=[[show(l) for l in g][:6] for g in got] if e2 is None else None)
     if cells(f) != src:
         res.viol("operand_changed", desc=desc)
     return res
